@@ -70,6 +70,8 @@ def _case(draw: Any, max_ops: int, max_first: int) -> dict[str, Any]:
         lead = [i for i in range(n) if i % 3 != lagging]
         late = [i for i in range(n) if i % 3 == lagging]
         script: list[Any] = []
+        for _ in range(draw(st.integers(0, 4))):   # rounds in which all phases are in step and samples are emitted
+            script += [["send", i] for i in range(n)] + [["settle"]]
         for _ in range(lag):
             script += [["send", i] for i in lead] + [["settle"]]
         for _ in range(lag + tail):
